@@ -43,7 +43,7 @@ def _t1(sel, w, a, b, i, r):
 @harness("C01", args="sel: int, w: int, a: int, b: int, i: int, r: int",
          pre=["0 <= sel <= 7", "1 <= w", "0 <= a < b <= w", "-w <= i < w", "1 <= r <= 3"],
          tiers={"quick": {"timeout": 150, "pre": ["w <= 3", "r == 2 or sel == 0", "i == -1 or i == 0 or sel == 1"], "parts": parts_over("sel", range(8))},
-                "thorough": {"timeout": 1200, "pre": ["w <= 5"], "parts": parts_product(parts_over("sel", range(8)), parts_over("w", range(1, 6)))}},
+                "thorough": {"timeout": 600, "pre": ["w <= 5"], "parts": [(f"sel{s}_w{w}_a{a}", f"sel == {s} and w == {w} and a == {a}") for s in range(8) for w in range(1, 6) for a in range(w)]}},
          sample=(3, 2, 0, 1, -1, 2),
          bounds="8 expression shapes over two buses; width w<=3 (quick) / <=5 (thorough); all in-range unit-step bounds 0<=a<b<=w, index -w<=i<w; parameter value 1..3",
          generalises="bus width, slice bounds, index, parameter value", outside="wider buses; strided slices here (see C03)")
@@ -117,7 +117,7 @@ _T2PRE = ["0 <= c0 <= 9 and c0 != 7 and c0 != 8", "0 <= c1 <= 6", "0 <= c2 <= 9"
 @harness("C01", args="c0: int, c1: int, c2: int, c3: int, c4: int, w: int", pre=_T2PRE,
          tiers={"quick": {"timeout": 170, "pre": ["w == 1", "c4 == 0 or c4 >= 7", "c1 == 1", "c3 == 0 or c3 == 4 or c3 >= 7"],
                           "parts": parts_product(parts_over("c0", (0, 2, 4, 5, 6, 9)), [("lo", "c2 <= 4"), ("hi", "c2 >= 5")])},
-                "thorough": {"timeout": 1500, "pre": ["w <= 2"], "parts": parts_product(parts_over("c0", (0, 1, 2, 3, 4, 5, 6, 9)), parts_over("c2", range(10)), parts_over("w", (1, 2)))}},
+                "thorough": {"timeout": 600, "pre": ["w <= 2"], "parts": parts_product(parts_over("c0", (0, 1, 2, 3, 4, 5, 6, 9)), parts_over("c1", range(7)), parts_over("c2", range(10)))}},
          sample=(2, 0, 7, 0, 0, 1),
          bounds="3 instances x 2 ports; per port one of: 2 signals, 2 bus halves, unnamed / named no-connect, open-but-referenced, reference to previous instance's a / b, reference to next instance's a (chains, fans, cycles); w = 1 (quick) / <= 2 (thorough); ill-formed combinations filtered by the oracle's validity predicate",
          generalises="port width; connection selectors (exhaustive path enumeration)", outside="more than 3 instances / 2 ports")
